@@ -13,7 +13,7 @@ META = dict(
                "C08_remove_node (+_absent: the unlink loops find_prev / remove_from_edges / remove_to_edges never run out of fuel; exactly the edge, resp. the node and "
                "every incident edge - a self-loop once - is removed, order of the other lists preserved), C08_observations (node_count, graph_index, element iteration, "
                "out_edges / in_edges in order, edge_count_from / edge_count_to = abstract degrees with a self-loop on both sides, edge endpoints all equal the abstract "
-               "graph), C08_abs_unique, and the lifting to ALL histories C08_history_refines / C08_history_sim (for every list of sign-correct operations from the empty "
+               "graph), C08_abs_unique, C08_free_list (free list duplicate-free, cleared unused slots, exactly the slots with from_meta < 0 below capacity 2^63), and the lifting to ALL histories C08_history_refines / C08_history_sim (for every list of sign-correct operations from the empty "
                "graph: never out of fuel, every returned id accepted by the acceptor specification C08_astep_def, final graph well-formed and observably the abstract "
                "graph); wf-only corollaries C08_wf_preserved, C08_wf_adjacency, C08_wf_edge_ends. DbImpl level (theories/DbCascadeProofs.v, full, under the "
                "hypothesis that the db's graph is wf): C08_db_cascade / C08_db_cascade_alias (remove_id / remove by alias of a node never fails; afterwards the node "
